@@ -192,7 +192,7 @@ def run_shard(desc):
     def report(query, doc, res):
         for kind, exp, obs, loc in res:
             small = doc
-            if loc and len(loc) == 1 and isinstance(doc, dict) and len(doc) > 4:
+            if loc and len(loc) == 1 and isinstance(doc, dict) and len(doc) > 4 and loc[0] in doc:
                 small = {loc[0]: doc[loc[0]]}  # name the one member that fails
             sh.violation(violation(kind, {"query": query, "doc": impl.jsonable(small), "location": loc},
                                    exp, obs, "bad-node"))
@@ -252,6 +252,16 @@ def run_shard(desc):
                 res = check_query_doc(q, doc, set(), sh)
                 if res:
                     report(q, doc, res)
+        # a root that is a string holding JSON text is a string: its only node is the root itself
+        for doc in ["12", "null", " true ", "[1, 2]", '{"a": [1]}', '"x"', "[", ""]:
+            for q in ("$", "$[0]", "$.a", "$..*", "$[*]", "$..[0]", "$[?@]"):
+                res = check_query_doc(q, doc, set(), sh)
+                if res:
+                    report(q, doc, res)
+                r = impl.run(impl.jp.find, q, doc)
+                if r[0] == "ok" and ((q == "$") != (len(r[1]) == 1) or (q == "$" and r[1][0].value is not doc)):
+                    sh.violation(violation("string-root-has-children", {"query": q, "doc": doc, "location": None},
+                                           "the root node only" if q == "$" else "no nodes", {"nodes": len(r[1])}, "bad-node"))
         for doc in TWIN_DOCS:
             for q in TWIN_QUERIES + DEEP_QUERIES:
                 res = check_query_doc(q, doc, set(), sh)
